@@ -75,3 +75,15 @@ func init() {
 		variant{Prop: "C14", Name: "clone-by-struct-copy-leaves-the-interceptor-lists-shared", Patch: "seeded/future-base.diff", More: []edit{{File: "parser/builder.go", Old: "\tclone := &Builder{\n", New: "\tclone := new(Builder)\n\t*clone = *pb\n\t_ = &Builder{\n"}}, Rule: "R14.4", Construct: "Clone"},
 	)
 }
+
+// plausible rewrites of the two repairs of rounds 9/10 must stay silent
+func init() {
+	af := "ast/ast.go"
+	pf := "parser/parser_functions.go"
+	addVariants(
+		variant{Prop: "C12", Name: "benign-dot-name-test-inlined", File: pf, Old: "\tif !p.atPropertyName() {\n", New: "\tif tok := p.CurrentToken; tok.Type != token.IDENT && tok.Type < token.DYNAMIC_TOKENS_START && token.Keywords[tok.Literal] != tok.Type {\n", Benign: true},
+		variant{Prop: "C03", Name: "benign-stmt-guard-recursive", File: af, Old: "\t\tcase *BinaryExpression:\n\t\t\te = n.Left\n", New: "\t\tcase *BinaryExpression:\n\t\t\treturn beginsLikeStatement(n.Left)\n", Benign: true},
+		variant{Prop: "C03", Name: "benign-stmt-parens-if-else", File: af, Old: "\tneedsParens := beginsLikeStatement(es.Expression)\n\tif needsParens {\n\t\tcw.WriteRune('(')\n\t}\n\tes.Expression.WriteTo(cw)\n\tif needsParens {\n\t\tcw.WriteRune(')')\n\t}\n", New: "\tif beginsLikeStatement(es.Expression) {\n\t\tcw.WriteRune('(')\n\t\tes.Expression.WriteTo(cw)\n\t\tcw.WriteRune(')')\n\t} else {\n\t\tes.Expression.WriteTo(cw)\n\t}\n", Benign: true},
+		variant{Prop: "C01", Name: "benign-stmt-parens-if-else-C01", File: af, Old: "\tneedsParens := beginsLikeStatement(es.Expression)\n\tif needsParens {\n\t\tcw.WriteRune('(')\n\t}\n\tes.Expression.WriteTo(cw)\n\tif needsParens {\n\t\tcw.WriteRune(')')\n\t}\n", New: "\tif beginsLikeStatement(es.Expression) {\n\t\tcw.WriteRune('(')\n\t\tes.Expression.WriteTo(cw)\n\t\tcw.WriteRune(')')\n\t} else {\n\t\tes.Expression.WriteTo(cw)\n\t}\n", Benign: true},
+	)
+}
